@@ -22,7 +22,7 @@ open ZChain ZChain.Ledger
 theorem burnRes_ok (s : ZSt) (c : Call) (inp : BurnIn) (o : BurnOut) (h : burnRes s c inp = .ok o) :
     ∃ a, inp = .addr a ∧ s.cfg.minBurn ≤ c.value ∧
       o.users = aSet s.users a (incI64 (unGet s.users a)) ∧
-      o.transfer = ⟨c.sender, zcnSC, c.value⟩ ∧ o.nonce = incI64 (unGet s.users a) := by
+      o.transfer = { src := c.sender, dst := zcnSC, amount := c.value } ∧ o.nonce = incI64 (unGet s.users a) := by
   unfold burnRes burn at h
   by_cases hv : c.value < s.cfg.minBurn
   · simp [hv] at h
